@@ -82,7 +82,7 @@ CHECKS = {
 
 CHECKS["C16"] = dict(
    text="Narrowed: the router tree the hz generator builds from a declared (verb, path, handler name) set - RouterNode.Update/Insert/FindNearest/Sort, DyeGroupName and the identifier mangling in util (ToVarName, ToGoFuncName, GetMiddlewareUniqueName) - is executed from SSA (second Go module cmd/hz) for every set of up to 2 routes of up to D segments (and every set of exactly 3 routes over a smaller alphabet) over an alphabet with parameters, a catch-all, segments colliding after mangling, trailing slash and root path, verbs GET/POST/Any, router sorting on/off. The tree is then read through a hand-written interpreter of the router.go/middleware.go templates (Go block scoping of := variables, hertz path joining): every group variable declared before use, none declared twice in a block, none unused, valid and distinct identifiers, and exactly the declared (verb, path) set registered, each with its handler inside the groups of its path prefixes.",
-   note="the text/template bodies are NOT executed (a change to the template text is invisible to this check), nor are the IDL front ends, go/format, file output, handler-by-method aliases, snake-style names or the update of an existing router file; route sets are concrete choices",
+   note="the text/template bodies are NOT executed (a change to the template text is invisible to this check), nor are the IDL front ends, go/format, file output, handler-by-method aliases or the update of an existing router file; for snake-style names DyeGroupName(true) and appendMw are real and the loop of genRouter that connects them is repeated in the harness; route sets are concrete choices; the interpreter was validated once against the real templates + go compiler on 684 route sets (tools/c16_validate.sh)",
    ref="DESIGN.md §4 C16")
 
 NOT_APPLICABLE = {
